@@ -2223,7 +2223,15 @@ impl Context {
             }
             Expr::Block(b) => {
                 if let Some(block) = b {
-                    self.eval_expr(*block)
+                    // Names bound inside a block are not visible after it (the type checker
+                    // opens a scope here too). Scopes of `valenv` stand for function nesting,
+                    // so the block's bindings are dropped from the current one instead.
+                    let visible = self.valenv.0.front().map_or(0, |scope| scope.len());
+                    let res = self.eval_expr(*block);
+                    if let Some(scope) = self.valenv.0.front_mut() {
+                        scope.truncate(visible);
+                    }
+                    res
                 } else {
                     (Arc::new(Value::None), unit!(), vec![])
                 }
